@@ -58,15 +58,17 @@ CLAIMED = {
         text="Machine-checked proofs (Lean 4 kernel) over the OS-file model: opening an image of any previous length "
              "yields exactly the requested number of blocks with retained bytes preserved and new bytes zero; after any "
              "valid history followed by close or kill at any point and reopen with any size, the registers are those of "
-             "the specification cut or zero-extended; the opened disk refines the register array. Failure surfacing is "
+             "the specification cut or zero-extended; the opened disk refines the register array; NewFileDisk refuses exactly the block "
+             "counts whose byte length is not a file offset, and for every disk it opens the uint64/int64 offsets of the code equal the "
+             "model's unbounded ones (no wrap-around, no aliasing of blocks). Failure surfacing is "
              "tied by the pinned bodies (every unix error is followed by panic/return) and exercised by strace fault "
              "injection at every pwrite64/pread64/fsync/ftruncate/fstat index (single and persistent failures, several "
              "errnos), syscall-trace conformance (an ok reply must be backed by a successful system call) and kill at "
              "every pwrite64 followed by reopen.",
         ref="DESIGN.md §6 C11",
         note="Trusted: OS-file model; fsync per POSIX; power-loss durability of the host file system is not reached; "
-             "strace injection (per-thread counting, pinned child). One genuine defect was found by this check and "
-             "repaired in /repo (fix: d44e103, known_findings.jsonl).",
+             "strace injection (per-thread counting, pinned child). Three genuine defects were found by this check and "
+             "repaired in /repo (fix: d44e103, 256b1fc, cd5316e; known_findings.jsonl).",
         tech="Lean 4 proofs over an OS-file model + regenerated facts + differential correspondence + strace fault/kill injection"),
     "C12": dict(
         text="Machine-checked proofs (Lean 4 kernel): the MemFs model (Go maps as association lists, inode numbers "
@@ -225,13 +227,19 @@ CLAIMED.update({
              "model either reports a conversion error or produces an expression that agrees with Go on every interpretation, state and fuel; the "
              "shapes of the catalogue (return in the middle, return in a loop, break outside a loop, early return with else and remainder, nested "
              "early return without else) are refused; weakening the endsWithReturn guard provably yields a silent mistranslation; the same reject-or-faithful statement is proved for the "
-             "composed model of variables/assignments/loops (Model/Core) and for the heap model (Model/Heap). The inventory of "
+             "composed model of variables/assignments/loops (Model/Core) and for the heap model (Model/Heap); for multiple assignments "
+             "(Model/TupleAssign: whenever the translator's guard accepts the targets, evaluating each target in its turn yields the heap of Go's "
+             "evaluate-all-operands-first semantics, for every environment, heap and aliasing; three rejected shapes on which they differ) and for "
+             "conversions (Model/Conv: every conversion Go allows over predeclared and defined types is rejected or emitted as an operation that "
+             "computes Go's result, outside the explicit known class of defined integer targets of another width). The inventory of "
              "the translator's 120 guard calls (function, reporter, message) is regenerated on every run and must equal the committed one (rfl). "
              "Tied to the code by that inventory, by the structural correspondence on random skeletons (which are rejected, and why), and by a "
              "catalogue of ~95 out-of-subset constructs x 9 positions, 12 control-flow shapes, 25 declaration forms, 18 look-alike packages and a "
-             "splice stream, each function judged rejected-or-equal against native Go via the real goose and the Lean interpreter.",
+             "splice stream, each function judged rejected-or-equal against native Go via the real goose and the Lean interpreter; plus two "
+             "model-vs-binary streams: generated multiple assignments (goose accepts exactly when the model's guard does) and all 267 allowed "
+             "conversions over the type universe (goose's outcome is the model's decision).",
         ref="DESIGN.md §6 C02",
-        note="Proved: the control-flow guards. Every other guard is pinned by the regenerated inventory and exercised by the catalogue (partial: "
+        note="Proved: the control-flow guards, the guards of the Core and Heap models, the multiple-assignment guard, the conversion decision. Every other guard is pinned by the regenerated inventory and exercised by the catalogue (partial: "
              "a catalogue is finite). Known findings: store through let-bound values, pointer method on value, method values, := redeclaration of "
              "a var, int as unsigned, untyped constant arithmetic, variadic calls, interface conversion not emitted, FFI packages recognised by name.",
         tech="Lean 4 proof (reject-or-faithful) + regenerated guard inventory + catalogue differential against the real binary"),
@@ -258,7 +266,8 @@ CLAIMED.update({
         text="Machine-checked proofs (Lean 4 kernel) over the model of Ctx.Decls: whatever the dependency graph (cycles and self-references "
              "included) every declaration is emitted exactly once; when the graph is acyclic apart from self-loops every declaration is emitted "
              "after everything it mentions; names resolve to the last declaration defining them, and to their own declaration when names are "
-             "distinct. Tied to the code by the regenerated text of Decls/sortedFiles/depTracker (rfl), by a hook (build tag verif) through which "
+             "distinct; the unit of ordering is a single declaration or ONE SPEC of a const/var group (declUnits), so definition-before-use holds "
+             "spec by spec whatever order the specs of a group, or of groups that mention each other, are written in. Tied to the code by the regenerated text of Decls/declUnits/sortedFiles/depTracker (rfl), by a hook (build tag verif) through which "
              "the names and dependencies goose recorded and the order it emitted are read from the real code and compared with the model's order, and "
              "by an independent structural check of the emitted file (each expected name once, every definition mentions only definitions above it, "
              "never itself as a global) over generated packages in several declaration orders and file splits.",
